@@ -1100,6 +1100,109 @@ static void foreign_case(Ctx &c, uint8_t canary) {
   c.nontrivial();
 }
 
+// ------------------------------------------------------------------ numerals next to a rounding midpoint
+// DESIGN sect. 4 demands the correctly rounded value for floating targets. A converter that parses into a wider type
+// and narrows afterwards (double rounding) is one ulp off for numerals that lie within ~1e-16 relative of the midpoint
+// between two adjacent target values, but not on it. Such numerals are built constructively: significand M (24 / 53
+// bits) and exponent e give the target value f = M * 2^e; the midpoint to the next value is (2M+1) * 2^(e-1), spelled
+// exactly in hex or decimal and then moved by a digit far beyond double / long double precision. The expected result is
+// known by construction (M+1 for "above", M for "below"), no libc parser is involved.
+static std::string u128dec(u128 v) { std::string o; do { o.insert(o.begin(), char('0' + (int)(v % 10))); v /= 10; } while (v); return o; }
+static void midpoint_case(Ctx &c, uint8_t canary) {
+  uint8_t mode = c.u8();
+  bool dbl, above, hexsp, neg;
+  uint64_t M;
+  int e;
+  unsigned entry;
+  if (mode == 0xff) {  // enumerated
+    unsigned idx = c.u16();
+    entry = idx % 3; idx /= 3;
+    neg = idx & 1; idx >>= 1;
+    hexsp = idx & 1; idx >>= 1;
+    above = idx & 1; idx >>= 1;
+    e = (idx & 1) ? -23 : 0; idx >>= 1;
+    dbl = false;
+    M = ((uint64_t)1 << 23) + (idx & 7);
+  } else {
+    dbl = c.chance(64);
+    above = c.flip();
+    neg = c.chance(64);
+    entry = (unsigned)c.pick(3);
+    unsigned bits = dbl ? 53 : 24;
+    M = ((uint64_t)1 << (bits - 1)) | (c.u64() & (((uint64_t)1 << (bits - 1)) - 1));
+    if (c.chance(64)) M = ((uint64_t)1 << bits) - 1;   // midpoint to the next power of two
+    e = (int)c.range(0, 50) - 40;                      // float values 2^-17 .. 2^34: normal, decimal expansion fits 128 bit
+    hexsp = dbl || c.flip();                           // decimal spelling for float targets only
+  }
+  u128 N = (u128)2 * M + 1;   // midpoint = N * 2^(e-1)
+  int e2 = e - 1;
+  unsigned extra = (unsigned)(mode == 0xff ? 24 : c.range(18, 30));   // digits between the midpoint and the deviation
+  std::string num;
+  if (hexsp) {
+    char b[64];
+    u128 I = above ? N : N - 1;
+    snprintf(b, sizeof b, "0x%llx.", (unsigned long long)I);
+    num = b;
+    num += above ? std::string(extra, '0') + "1" : std::string(extra + 1, 'f');
+    snprintf(b, sizeof b, "p%d", e2);
+    num += b;
+  } else {
+    // exact decimal expansion of N * 2^e2
+    std::string ip, fp;
+    if (e2 >= 0) { ip = u128dec(N << e2); }
+    else {
+      unsigned k = (unsigned)-e2;   // N / 2^k = N * 5^k / 10^k, k <= 41: N * 5^k < 2^26 * 2^96
+      u128 D = N;
+      for (unsigned i = 0; i < k; i++) D *= 5;
+      std::string ds = u128dec(D);
+      if (ds.size() <= k) ds = std::string(k - ds.size() + 1, '0') + ds;
+      ip = ds.substr(0, ds.size() - k);
+      fp = ds.substr(ds.size() - k);
+    }
+    if (above) num = ip + "." + fp + std::string(extra, '0') + "1";
+    else {
+      // subtract one unit in the last place of the exact expansion, then append nines
+      std::string all = ip + fp;
+      size_t i = all.size();
+      while (i > 0 && all[i - 1] == '0') { all[i - 1] = '9'; i--; }
+      if (i > 0) all[i - 1]--;
+      num = all.substr(0, ip.size()) + "." + all.substr(ip.size()) + std::string(extra, '9');
+    }
+  }
+  std::string text = (neg ? "-" : "") + num;
+  TI t = kT[dbl ? Td : Tf];
+  uint64_t Mr = above ? M + 1 : M;
+  long double want = ldexpl((long double)Mr, e);
+  if (neg) want = -want;
+  static const char *ename[] = {"mpt_cfloat/mpt_cdouble", "mpt_convert_number", "mpt_convert_string"};
+  c.logf("numeral %s: %s the midpoint between %s and its %s neighbour", quoted(text).c_str(), above ? "just above" : "just below", ldstr(ldexpl((long double)M, e)).c_str(), dbl ? "double" : "float");
+  c.label(dbl ? "midpoint:double" : hexsp ? "midpoint:float-hex" : "midpoint:float-decimal");
+  char *txt = (char *)malloc(text.size() + 1);
+  memcpy(txt, text.c_str(), text.size() + 1);
+  struct Free { char *p; ~Free() { free(p); } } fr = {txt};
+  Dest d;
+  int r = call_canary(d, canary, 1, [&](void *p) -> int {
+    if (entry == 0) return dbl ? mpt_cdouble((double *)p, txt, 0) : mpt_cfloat((float *)p, txt, 0);
+    if (entry == 1) return mpt_convert_number(txt, t.id, p);
+    return mpt_convert_string(txt, (type_t)t.id, p);
+  });
+  c.logf("  %s to '%c': ret %d", ename[entry], t.id, r);
+  c.nontrivial();
+  if (r <= 0) {   // refusal is allowed
+    if (!d.untouched()) c.fail("midpoint:refused-dirty", "%s %s: returned %d but destination bytes changed", ename[entry], quoted(text).c_str(), r);
+    c.label("midpoint:refused");
+    return;
+  }
+  if ((size_t)r != text.size())
+    c.fail("midpoint:bad-prefix", "%s %s: reports %d of %zu characters consumed; the whole text is one numeral", ename[entry], quoted(text).c_str(), r, text.size());
+  long double g = d.getf(t);
+  if (g != want)
+    c.fail(tagof("midpoint", "wrong-rounding", t.id).c_str(), "%s %s: the numeral lies %s the midpoint, the nearest '%c' value is %s, destination holds %s", ename[entry], quoted(text).c_str(),
+           above ? "just above" : "just below", t.id, ldstr(want).c_str(), ldstr(g).c_str());
+  if (!d.outside_intact(t.width)) c.fail("midpoint:canary", "%s %s: bytes outside the target changed", ename[entry], quoted(text).c_str());
+  c.label("midpoint:correctly-rounded");
+}
+
 // ------------------------------------------------------------------ case
 static void data_op(Ctx &c, uint8_t canary, bool absent) {
   int sti = (int)c.pick(NT), tti = (int)c.pick(NT);
@@ -1139,6 +1242,7 @@ static void run(Ctx &c) {
     return;
   }
   if ((sel & 0xC7) == 0x84) { vararg_case(c, (sel & 8) ? 0xA5 : 0x5A); return; }    // 0x84, 0x8c, .. 0xbc
+  if ((sel & 0xC7) == 0x44) { midpoint_case(c, (sel & 8) ? 0xA5 : 0x5A); return; }  // 0x44, 0x4c, .. 0x7c
   if ((sel & 0xC7) == 0xC4) { foreign_case(c, (sel & 8) ? 0xA5 : 0x5A); return; }   // 0xc4, 0xcc, .. 0xfc
   uint8_t canary = (sel & 1) ? 0xA5 : 0x5A;
   bool absent = (sel & 0x38) == 0x08;   // one case in eight: the data conversions of this case read a source without data address
@@ -1180,6 +1284,10 @@ static void enum3_make(uint64_t idx, int, std::vector<uint8_t> &out) {
 static uint64_t enum4_count(int) { return NT * NT; }
 static void enum4_make(uint64_t idx, int, std::vector<uint8_t> &out) { out = {0x84, 0xff, (uint8_t)(idx / NT), (uint8_t)(idx % NT)}; }
 
+// exhaustive: float midpoints for 8 consecutive significands x 2 exponents x {above, below} x {decimal, hex} x sign x 3 entry points
+static uint64_t enum5_count(int) { return 8 * 2 * 2 * 2 * 2 * 3; }
+static void enum5_make(uint64_t idx, int, std::vector<uint8_t> &out) { out = {0x44, 0xff, (uint8_t)(idx & 0xff), (uint8_t)(idx >> 8)}; }
+
 static Target t = {
     "C07",
     "random: sequences of (a) data conversions: source type x target type over {c,b,y,n,q,i,u,x,t,l,f,d,e}, source value from target-range boundaries +-2, "
@@ -1193,7 +1301,8 @@ static Target t = {
     "and after a whole-word consume the next element starts behind the blank run; (d) 3%: the vararg argument iterator of mpt_process_vararg over 1..4 generated arguments of any of the 13 ids "
     "(hand-built x86-64 va_list), each consumed by mpt_iterator_consume with its own or a drawn id: element k's own number; (e) 3%: target type ids that are no scalar id but carry a scalar/vector code "
     "in the low byte or low 32 bits (meta pointer, static, registered via mpt_type_add, interface, private/address ids) through every entry point that takes a target id: must be refused, destination untouched. "
-    "The harness iterator keeps its element in one slot that advance() overwrites. exhaustive: all 256/65536 values of source types c,b,y,n,q x 13 targets "
+    "The harness iterator keeps its element in one slot that advance() overwrites; (f) 3%: numerals built 18..30 digits above/below the exact midpoint of two adjacent float (decimal or hex spelling) or double (hex) values "
+    "through mpt_cfloat/mpt_cdouble, mpt_convert_number, mpt_convert_string: the nearest target value, known by construction. exhaustive: all 256/65536 values of source types c,b,y,n,q x 13 targets "
     "x 3 entry points x {dest, no dest}. non-trivial: a source value outside at least one target range (negative, > 127, non-integral or non-finite), or an accepted numeral "
     "above 32 bits, or an iterator element that was converted to at least two different target types before it was consumed; distinct by hash of the draw sequence.",
     run,
@@ -1203,7 +1312,8 @@ static Target t = {
     {{"all values of 8/16 bit sources c,b,y,n,q x all targets x entries x {dest,no dest}", enum_count, enum_make},
      {"source without data address: 13 source types x 13 targets x entries x {dest,no dest}", enum2_count, enum2_make},
      {"target type ids beyond the scalar ids (scalar/vector low byte in the meta pointer, static, registered and private ranges; interface ids) x 13 source types x all entry points", enum3_count, enum3_make},
-     {"vararg argument lists of two arguments: 13 x 13 types, each consumed with its own type", enum4_count, enum4_make}},
+     {"vararg argument lists of two arguments: 13 x 13 types, each consumed with its own type", enum4_count, enum4_make},
+     {"numerals just above/below the midpoint of adjacent floats: 8 significands x 2 exponents x decimal/hex x sign x 3 text entry points", enum5_count, enum5_make}},
     register_types,
     0,
 };
